@@ -20,3 +20,12 @@ def run(ctx):
     bad = S.judge(ctx, recs, ["wfL", "wfU", "permr", "permc"], "well-formedness")
     S.coverage(ctx, recs)
     ctx.coverage["wf_failures"] = bad
+    # factors returned by RE-factorizations (new values on the old pattern, with and without pivot reuse, changing thread counts): the
+    # same well-formedness predicate after every call of generated call histories, all four precision copies
+    from vlib import hist as H
+    hst, hv = H.run_histories(ctx, 100 if ctx.quick() else 2500, seed_salt=909)
+    for key, what, blob in hv[:10]:
+        if key.startswith("factorization-of-current-values") and not any(f in key for f in ("wfL", "wfU", "permr", "permc")):
+            continue        # numerical identity only: C08's subject
+        ctx.violation("refactorization:" + key, "re-factorization history: " + what, blob)
+    ctx.coverage["refactorization_histories"] = hst
